@@ -212,11 +212,13 @@ package generator
 // nalts / sumAlts / andAlts count the alternatives of a path (spec/c02.smt2): one generated clause per alternative.
 
 //@ func traverseRegularProperty(property path.Property, t traversal, fetchNodes bool, iriExpander *misc.IriExpander) []regoPathResultInternal
+//@   ensures [C02:converse-follows-the-predicate-backwards] len(result) == 1 && len(result[0].rego) >= 1 && (property.Inverse ==> hasPrefix(result[0].rego[len(result[0].rego) - 1], "search_subjects["))
 //@   ensures [C02:one-clause] len(result) == 1
 //@   ensures [C02:binding] result[0].variable == t.variable + "_" + itoa(len(t.pathVariables)) || deref(t.counter) > 0
 //@   ensures [C02:path-recorded] result[0].paths == snoc(t.paths, property.Iri)
 
 //@ func traverseCustomProperty(property path.Property, t traversal, fetchNodes bool, iriExpander *misc.IriExpander) []regoPathResultInternal
+//@   ensures [C02:converse-follows-the-predicate-backwards] len(result) == 1 && len(result[0].rego) >= 1 && (property.Inverse ==> hasPrefix(result[0].rego[len(result[0].rego) - 1], "search_custom_property_subjects["))
 //@   ensures [C02:one-clause] len(result) == 1
 //@   ensures [C02:path-recorded] result[0].paths == snoc(t.paths, property.Iri)
 
